@@ -38,6 +38,12 @@ nontrivial_rule("C17", "Non-trivial: the tensor has a degenerate spectrum (uniax
 assumptions("C17", [
     "finite components with 1e-15 <= max|component| <= 1e9 (or the zero tensor); squares neither overflow nor underflow; "
     "whole-number tensors up to 1000 also in integer typed containers (python int, numpy.int64, int64 columns / frame columns)",
+    "every non-zero component is at least 1e-30 of the largest one (smaller ones are flushed to exactly zero by the harness). "
+    "Reason: numpy.linalg.eigvalsh (LAPACK's root-free QL works on SQUARED off-diagonals) loses all accuracy when a component "
+    "lies about 1e-162..1e-155 below the others, i.e. its square is subnormal: eigvalsh([[0,1,0],[1,-9.6e-158,1],[0,1,1]]) is off by "
+    "3.6e-10, other values in that band by up to 0.35 absolute on O(1) eigenvalues, in 22 % of random draws (numpy.linalg.eigh is "
+    "accurate there). pyLife inherits this from numpy; such components are not stresses (same stance as the 1e-154 product "
+    "underflow corner excluded for C01/C03 in DESIGN 2.9)",
     "rotations are proper (det = +1), built in the harness from axis/angle or from the 24 cube rotations (exact)",
     "sign of a signed equivalent stress is asserted only where its indicator is not within rounding of zero, "
     "or is exactly zero by construction (then the documented +1)",
@@ -82,18 +88,28 @@ def rotation(rot):
     return np.eye(3) + math.sin(th) * kx + (1.0 - math.cos(th)) * (kx @ kx), abs(th)
 
 
+DUST = 1e-30
+
+
+def flush(c):
+    """Components below 1e-30 of the largest one are set to exactly zero (domain by construction, see assumptions):
+    a rotation by 1e-160 rad or a float drawn next to zero would otherwise plant entries whose square is subnormal."""
+    m = max(abs(x) for x in c)
+    return [x if abs(x) >= DUST * m else 0.0 for x in c] if m > 0 else list(c)
+
+
 def assemble(eig, rot):
     """Voigt components (s11,s22,s33,s12,s13,s23) of R diag(eig) R^T."""
     rm, ang = rotation(rot)
     s = rm @ np.diag(eig) @ rm.T
-    return [float(s[0, 0]), float(s[1, 1]), float(s[2, 2]), float(s[0, 1]), float(s[0, 2]), float(s[1, 2])], ang
+    return flush([float(s[0, 0]), float(s[1, 1]), float(s[2, 2]), float(s[0, 1]), float(s[0, 2]), float(s[1, 2])]), ang
 
 
 def rotate_components(c, rot):
     rm, ang = rotation(rot)
     s = np.array([[c[0], c[3], c[4]], [c[3], c[1], c[5]], [c[4], c[5], c[2]]])
     t = rm @ s @ rm.T
-    return [float(t[0, 0]), float(t[1, 1]), float(t[2, 2]), float(t[0, 1]), float(t[0, 2]), float(t[1, 2])], ang
+    return flush([float(t[0, 0]), float(t[1, 1]), float(t[2, 2]), float(t[0, 1]), float(t[0, 2]), float(t[1, 2])]), ang
 
 
 def ref_measures(eig):
@@ -368,7 +384,7 @@ def _invariance_cases(draw, tier):
               "S given by arbitrary components or by spectrum")
 def rotation_scale(case, ctx):
     if "comp" in case:
-        c0 = list(case["comp"])
+        c0 = flush(case["comp"])
         eig0 = None
         ctx.label("pattern:" + case.get("pattern", "full"))
     else:
